@@ -1,0 +1,86 @@
+//go:build verif
+
+// Contracts for the assembler's back end: from parsed arguments to bytes (C16).
+// The lexer and grammar (participle, by reflection) are outside reach; they are
+// covered by a bounded stand-in on the real code (/verif/bounded). Comments
+// only; compiled only under the `verif` tag.
+
+package asm
+
+//@ ghost buf(w) = bufStr(refOf(w))
+// a symbol argument: one length byte, then the text
+//@ ghost symEnc(s) = chr(len(s)) + s
+
+// numSize: the number of bytes of a non-zero integer. Computed with floating point
+// (math.Log2), which is not modelled; the contract is assumed here and checked
+// exhaustively for all 2^32 - 1 arguments by the bounded harness (thorough tier).
+//@ func numSize
+//@   assumed
+//@   ensures n >= 1 ==> result == ite(n < 256, 1, ite(n < 65536, 2, ite(n < 16777216, 3, 4)))
+
+//@ func writeOpcode
+//@   serves C16
+//@   requires w != nil
+//@   modifies bufStr[refOf(w)]
+//@   ensures[C16] @op result1 == nil && result0 == 2 && buf(w) == old(buf(w)) + chr(int(op) / 256) + chr(int(op) % 256)
+
+//@ func writeSym
+//@   serves C16
+//@   requires w != nil
+//@   modifies bufStr[refOf(w)]
+//@   ensures[C16] @sym len(s) <= 255 ==> result1 == nil && buf(w) == old(buf(w)) + chr(len(s)) + s
+//@   ensures[C16] @toolong len(s) > 255 ==> result1 != nil && buf(w) == old(buf(w))
+
+// an integer argument: one length byte, then the big-endian bytes without leading zeros (0 is 01 00)
+//@ func writeSize
+//@   serves C16
+//@   requires w != nil
+//@   modifies bufStr[refOf(w)]
+//@   ensures[C16] @ok result1 == nil
+//@   ensures[C16] @b1 n < 256 ==> buf(w) == old(buf(w)) + chr(1) + chr(int(n))
+//@   ensures[C16] @b2 n >= 256 && n < 65536 ==> buf(w) == old(buf(w)) + chr(2) + chr(int(n) / 256) + chr(int(n) % 256)
+//@   ensures[C16] @b3 n >= 65536 && n < 16777216 ==> buf(w) == old(buf(w)) + chr(3) + chr(int(n) / 65536) + chr(int(n) / 256 % 256) + chr(int(n) % 256)
+//@   ensures[C16] @b4 n >= 16777216 ==> buf(w) == old(buf(w)) + chr(4) + chr(int(n) / 16777216) + chr(int(n) / 65536 % 256) + chr(int(n) / 256 % 256) + chr(int(n) % 256)
+
+// ---- argument groups: exactly the arguments held by the parsed line, in the VM's order ----
+// two symbols; an all-digit selector arrives as a number (Arg.Size) and is written back in decimal
+//@ func parseTwoSymReverse
+//@   serves C16
+//@   requires b != nil && arg.Sym != nil && arg.Selector != nil
+//@   modifies bufStr[refOf(b)]
+//@   ensures[C16] @args len(*arg.Sym) <= 255 && len(*arg.Selector) <= 255 ==> result1 == nil
+//@     && buf(b) == old(buf(b)) + chr(len(*arg.Sym)) + *arg.Sym + chr(len(*arg.Selector)) + *arg.Selector
+
+//@ func parseTwoSym
+//@   serves C16
+//@   requires b != nil && arg.Sym != nil && (arg.Size == nil ==> arg.Selector != nil)
+//@   modifies bufStr[refOf(b)]
+//@   ensures[C16] @plain arg.Size == nil && *arg.Sym != "*" && len(*arg.Sym) <= 255 && len(*arg.Selector) <= 255 ==> result1 == nil
+//@     && buf(b) == old(buf(b)) + chr(len(*arg.Sym)) + *arg.Sym + chr(len(*arg.Selector)) + *arg.Selector
+//@   ensures[C16] @wildcard arg.Size == nil && *arg.Sym == "*" && len(*arg.Selector) <= 255 ==> result1 == nil
+//@     && buf(b) == old(buf(b)) + chr(len(*arg.Selector)) + *arg.Selector + chr(1) + "*"
+// a selector that was lexed as a number is written as the decimal rendering of that number: the text
+// that was written in the source is not available any more (leading zeros are lost at the lexer: H15)
+//@   ensures[C16] @numeric arg.Size != nil && len(*arg.Sym) <= 255 ==> result1 == nil
+//@     && buf(b) == old(buf(b)) + chr(len(*arg.Sym)) + *arg.Sym + chr(len(decimalOf(int(*arg.Size)))) + decimalOf(int(*arg.Size))
+
+//@ func parseSized
+//@   serves C16
+//@   requires b != nil && arg.Sym != nil && arg.Size != nil
+//@   modifies bufStr[refOf(b)]
+//@   ensures[C16] @small len(*arg.Sym) <= 255 && *arg.Size < 256 ==> result1 == nil && buf(b) == old(buf(b)) + chr(len(*arg.Sym)) + *arg.Sym + chr(1) + chr(int(*arg.Size))
+//@   ensures[C16] @wide len(*arg.Sym) <= 255 && *arg.Size >= 16777216 ==> result1 == nil && buf(b) == old(buf(b)) + chr(len(*arg.Sym)) + *arg.Sym + chr(4)
+//@     + chr(int(*arg.Size) / 16777216) + chr(int(*arg.Size) / 65536 % 256) + chr(int(*arg.Size) / 256 % 256) + chr(int(*arg.Size) % 256)
+
+//@ func parseFlagged
+//@   serves C16
+//@   requires b != nil && arg.Size != nil && arg.Flag != nil
+//@   modifies bufStr[refOf(b)]
+//@   ensures[C16] @small *arg.Size < 256 ==> result1 == nil && buf(b) == old(buf(b)) + chr(1) + chr(int(*arg.Size)) + chr(int(*arg.Flag))
+
+//@ func parseSig
+//@   serves C16
+//@   requires b != nil && arg.Sym != nil && arg.Size != nil && arg.Flag != nil
+//@   modifies bufStr[refOf(b)]
+//@   ensures[C16] @small len(*arg.Sym) <= 255 && *arg.Size < 256 ==> result1 == nil
+//@     && buf(b) == old(buf(b)) + chr(len(*arg.Sym)) + *arg.Sym + chr(1) + chr(int(*arg.Size)) + chr(int(*arg.Flag))
